@@ -53,6 +53,25 @@ Input dimensions of a case besides the score (all optional in the JSON `case`; a
   via.write        memory (default) | file (write_file, the file's content is what is compared)
   via.nsd          BMS target: the writer's no_sample_default argument (non-default id)
   via.default_out  BMS target in the BME layout: note_channel_config left to its documented default
+  via.rewrite      1 | 2: the SAME converted chart is written that many further times (write() <-> write_file() alternating,
+                   a further write_file goes to a path that holds the previous output); EVERY output is compared with the
+                   source, the later ones tagged "write #k of the same converted chart"
+  via.over         write_file: the path already holds ANOTHER file: longer (300 KB of lines in the target format) | shorter
+                   (3 bytes); the file afterwards must denote exactly the chart written last
+  via.read_prev    read_file: the path was used before - it held another (small, valid) file of the same format, which was
+                   read from it with the same entry point, then the file was replaced by the source under test
+  via.before       another (small, valid) file of the same source format goes through read -> convert -> write first (its
+                   objects are thrown away): charts share no state
+  via.edit         call - legitimate change - call again.  The read object is converted and written, then the SAME object is
+                   changed through public operations, then it is converted and written again; the second output must be
+                   what the statement says for the chart as it is now.  ["shift", d, how] (sources with an offset field:
+                   osu, Quaver, .sm): every time + d ms - how = lists: `lst.offset += d` on every list of every chart |
+                   stack: `chart.stack().offset += d` -; expected: the source's timeline moved by d (for a BMS target, which
+                   has no offset field, the unmoved one).  ["swap", how] (every source): the objects of the highest and of
+                   the lowest used column of every chart change places - lists: `lst.column = lst.column.replace({a: b,
+                   b: a})` on the note lists | stack: the same on `chart.stack().column` -; expected: the source's objects
+                   with these two columns exchanged (the set of used columns, hence any inferred key count, is unchanged)
+  move_right_by    also NEGATIVE (-1, -2: OsuToBMS / QuaToBMS / O2JToBMS) on files whose lowest columns hold no object
 """
 from __future__ import annotations
 
@@ -93,6 +112,7 @@ assert all(SM_KEYS[v] == k for k, v in SM_TYPE.items())
 BMS_LANES = dict(PMS_5B=5, PMS=9, BMS=14, BME=16, PMS_BME=18)  # lanes 0..n-1 of each channel layout
 # every value: at most 3 decimals (BMS #BPMxx precision) and exactly representable as float32 (OJN tempo fields)
 BPM_POOL = ("60", "90", "120", "125", "150", "177.5", "200", "240", "90.25", "133.125")
+BPM_EDGE = ("255", "30", "999.5")  # 255 = the largest tempo BMS channel 03 (two hex digits) can say; a slow and a fast one (float32-exact as the pool)
 T0_POOL = (0, 0, 0, 500, 1118, -635, 2250, 9)  # ms position of beat 0 (formats with an offset: osu, Quaver, .sm)
 T0_FAR = (-50000, 123456, 3600000)  # a long way from 0 ms, both sides (5 % of the files with an offset)
 SHAPES = ("hits_only", "holds_only", "top_holds_only", "chords", "on_lines", "empty_chart")
@@ -211,13 +231,15 @@ def gen_objs(rng, keys, n_meas, top_used=True, shape=None, lines=()):
     return dict(keys=keys, objs=objs)
 
 
-def gen_score(rng, keys_per_chart, with_t0, top_used=True, shape=None):
+def gen_score(rng, keys_per_chart, with_t0, top_used=True, shape=None, edge_bpm=False):
     n_meas = rng.randrange(2, 7) if rng.random() < 0.92 else rng.randrange(20, 61)  # a few long scores
     n_t = min(rng.choice((1, 2, 2, 3, 4)), n_meas)
     at = [0] + sorted(rng.sample(range(1, n_meas), n_t - 1))
     tempo, prev = [], None
     for m in at:
         v = rng.choice([b for b in BPM_POOL if b != prev or rng.random() < 0.15])  # sometimes a redundant tempo point
+        if edge_bpm and rng.random() < 0.5:
+            v = rng.choice([b for b in BPM_EDGE if b != prev])
         tempo.append([m, v])
         prev = v
     if shape is None:
@@ -240,7 +262,7 @@ def gen_case(rng, src, tgt):
         shape = "hits_only"  # an empty BMS text declares no key count at all; elsewhere empty charts stay a small share
     if shape == "empty_chart" and src == "sm":
         n_charts = 3
-    score = gen_score(rng, [k] + [rng.choice(keys) for _ in range(n_charts - 1)], with_t0=src in ("osu", "qua", "sm"), top_used=top_used, shape=shape)
+    score = gen_score(rng, [k] + [rng.choice(keys) for _ in range(n_charts - 1)], with_t0=src in ("osu", "qua", "sm"), top_used=top_used, shape=shape, edge_bpm=rng.random() < 0.1)
     case = dict(src=src, tgt=tgt, seed=rng.randrange(1 << 30), score=score)
     if shape:
         case["shape"] = shape
@@ -260,6 +282,11 @@ def gen_case(rng, src, tgt):
     elif src in ("osu", "qua") and tgt == "bms" and rng.random() < 0.3:
         case["move_right_by"] = rng.choice((1, 1, 2))  # the explicit shift argument of OsuToBMS / QuaToBMS (default 0)
         shift = case["move_right_by"]
+    if src in ("osu", "qua", "o2j") and tgt == "bms" and rng.random() < 0.15:
+        # the shift argument is an int: negative values too, on files whose lowest column(s) hold no object
+        down = _free_low_columns(rng, score)
+        if down:
+            case["move_right_by"] = shift = -down
     kmax = max(c["keys"] for c in score["charts"])
     if src == "bms":
         case["layout"] = _layout_for(rng, kmax)
@@ -269,6 +296,17 @@ def gen_case(rng, src, tgt):
     if via:
         case["via"] = via
     return case
+
+
+def _free_low_columns(rng, score):
+    """Empties the lowest 1-2 columns of every chart of the score (in place) where that leaves the top column's objects
+    alone; -> how many columns are free at the bottom of EVERY chart afterwards (0: nothing was changed)."""
+    n = rng.choice((1, 1, 2))
+    if any(ch["keys"] - 1 < n or not any(o[0] >= n for o in ch["objs"]) for ch in score["charts"]):
+        return 0
+    for ch in score["charts"]:
+        ch["objs"] = [o for o in ch["objs"] if o[0] >= n]
+    return n
 
 
 def gen_via(rng, case):
@@ -290,8 +328,19 @@ def gen_via(rng, case):
         via["pre"] = rng.choice([t for t in TARGETS[src] if t != tgt])
     elif r < 0.2:
         via["twice"] = True
+    elif r < 0.28:
+        via["before"] = True
+    elif r < 0.36:
+        how = rng.choice(("lists", "stack"))
+        via["edit"] = ["shift", rng.choice((250, 1000, -125, 3)), how] if src in ("osu", "qua", "sm") and rng.random() < 0.6 else ["swap", how]
     if rng.random() < 0.25:
         via["write"] = "file"
+        if rng.random() < 0.5:
+            via["over"] = rng.choice(("longer", "longer", "shorter"))
+    if rng.random() < 0.15:
+        via["rewrite"] = rng.choice((1, 1, 2))
+    if str(via.get("read", "")).startswith("file") and rng.random() < 0.4:
+        via["read_prev"] = True
     if tgt == "bms":
         if rng.random() < 0.25:
             via["nsd"] = rng.choice(("0A", "ZY", "1Z"))
@@ -347,6 +396,21 @@ def simple_cases(src, tgt):
     out.append(variant([plain] * nch, via=dict(read=reads[1], conv="instance", write="file")))
     out.append(variant([plain] * nch, via=dict(twice=True, **(dict(read=reads[2]) if reads[2:] else {}))))
     out.append(variant([plain] * nch, via=dict(pre=next(t for t in TARGETS[src] if t != tgt))))
+    # the same converted chart written again (write, write_file onto the first output, write); a write_file onto a longer /
+    # a shorter other file; read_file on a path read before; another file through the three calls first; call - move every
+    # time of the read object by public operations - call again
+    out.append(variant([plain] * nch, via=dict(rewrite=2)))
+    out.append(variant([plain] * nch, via=dict(write="file", over="longer", rewrite=1)))
+    out.append(variant([plain] * nch, via=dict(write="file", over="shorter", read=reads[0], read_prev=True, **crlf)))
+    out.append(variant([plain] * nch, via=dict(before=True)))
+    out.append(variant([plain] * nch, via=dict(edit=["swap", "lists"])))
+    out.append(variant([plain] * nch, via=dict(edit=["swap", "stack"], write="file")))
+    if src in ("osu", "qua", "sm"):
+        out.append(variant([plain] * nch, via=dict(edit=["shift", 250, "lists"])))
+        out.append(variant([plain] * nch, via=dict(edit=["shift", -125, "stack"], write="file")))
+    if tgt == "bms" and src in ("osu", "qua", "o2j") and k0 >= 3:
+        low = [[k0 - 1, "1", "0"], [1, "2", "1"]]  # column 0 free: every column one to the LEFT
+        out.append(variant([low] * nch, move_right_by=-1))
     if tgt == "bms":
         lanes_needed = k0 + ((src, tgt) == ("o2j", "bms"))
         if lanes_needed <= BMS_LANES["BME"]:
@@ -717,8 +781,9 @@ def _via(case):
 RAISE_BAD_MODE = {("osu", "qua"), ("osu", "sm"), ("bms", "qua"), ("sm", "qua")}  # converters with the optional argument raise_bad_mode (default True)
 
 
-def _with_file(data, suffix, fn, as_path):
-    """fn(path) on a temporary file holding `data` (bytes); the file is removed afterwards."""
+def _with_file(data, suffix, fn, as_path, first=None):
+    """fn(path) on a temporary file holding `data` (bytes); the file is removed afterwards.  first (bytes): the path is
+    one that was used before - it held `first`, fn read that, then the file was replaced by `data`."""
     import os
     import tempfile
     from pathlib import Path
@@ -726,10 +791,35 @@ def _with_file(data, suffix, fn, as_path):
     fd, p = tempfile.mkstemp(suffix=suffix, prefix="c09_")
     try:
         with os.fdopen(fd, "wb") as f:
-            f.write(data)
+            f.write(first if first is not None else data)
+        if first is not None:
+            try:
+                fn(Path(p) if as_path else p)  # that file's own reading is not this case's business
+            except Exception:  # noqa
+                pass
+            with open(p, "wb") as f:
+                f.write(data)
         return fn(Path(p) if as_path else p)
     finally:
         os.unlink(p)
+
+
+def _file_bytes(src, payload, eol="\n"):
+    """The bytes of a source file on disk."""
+    if src == "osu":
+        return payload.encode("utf8")  # line ends: the text's own (LF or CRLF)
+    if src in ("qua", "sm"):
+        return payload.replace("\n", eol).encode("utf8")
+    if src == "bms":
+        return "\r\n".join(payload).encode("shift_jis") + b"\r\n"
+    return payload
+
+
+def _other_case(case):
+    """A small valid file of the same source format that is NOT the file under test (3 objects, 2 tempo points, another
+    key count where the pair has one): what a path held before / what went through the library before."""
+    c = next(c for c in simple_cases(case["src"], case["tgt"]) if len(c["score"]["tempo"]) == 2 and "via" not in c)
+    return dict(c, seed=7)
 
 
 def real_read(case, payload):
@@ -737,11 +827,15 @@ def real_read(case, payload):
     how = _via(case).get("read", "lines")
     as_path = how == "file_path"
     eol = "\r\n" if _via(case).get("eol") == "crlf" else "\n"
+    first = None
+    if how.startswith("file") and _via(case).get("read_prev"):
+        other = _other_case(case)
+        first = _file_bytes(src, BUILD[src](other), eol)
     if src == "osu":
         from reamber.osu.OsuMap import OsuMap
 
         if how.startswith("file"):
-            return _with_file(payload.encode("utf8"), ".osu", OsuMap.read_file, as_path)  # line ends: the text's own (LF or CRLF)
+            return _with_file(_file_bytes(src, payload), ".osu", OsuMap.read_file, as_path, first)
         if how == "keepends":  # the lines with their terminators, as readlines() gives them
             parts = payload.split("\n")
             return OsuMap.read([q + "\n" for q in parts[:-1]] + ([parts[-1]] if parts[-1] else []))
@@ -750,7 +844,7 @@ def real_read(case, payload):
         from reamber.quaver.QuaMap import QuaMap
 
         if how.startswith("file"):
-            return _with_file(payload.replace("\n", eol).encode("utf8"), ".qua", QuaMap.read_file, as_path)
+            return _with_file(_file_bytes(src, payload, eol), ".qua", QuaMap.read_file, as_path, first)
         if how == "str":
             return QuaMap.read(payload)
         if how == "unsafe":
@@ -760,7 +854,7 @@ def real_read(case, payload):
         from reamber.sm.SMMapSet import SMMapSet
 
         if how.startswith("file"):
-            return _with_file(payload.replace("\n", eol).encode("utf8"), ".sm", SMMapSet.read_file, as_path)
+            return _with_file(_file_bytes(src, payload, eol), ".sm", SMMapSet.read_file, as_path, first)
         if how == "str":
             return SMMapSet.read(payload)
         return (SMMapSet() if how == "instance" else SMMapSet).read(payload.split("\n"))
@@ -769,7 +863,7 @@ def real_read(case, payload):
 
         lay = layout_of(case["layout"])
         if how.startswith("file"):
-            return _with_file("\r\n".join(payload).encode("shift_jis") + b"\r\n", ".bms", lambda q: BMSMap.read_file(q, note_channel_config=lay), as_path)
+            return _with_file(_file_bytes(src, payload), ".bms", lambda q: BMSMap.read_file(q, note_channel_config=lay), as_path, first)
         if how == "default_layout":
             assert case["layout"] == "BME"  # the documented default
             return BMSMap.read(payload)
@@ -779,7 +873,7 @@ def real_read(case, payload):
     from reamber.o2jam.O2JMapSet import O2JMapSet
 
     if how.startswith("file"):
-        return _with_file(payload, ".ojn", O2JMapSet.read_file, as_path)
+        return _with_file(payload, ".ojn", O2JMapSet.read_file, as_path, first)
     return (O2JMapSet() if how == "instance" else O2JMapSet).read(payload)
 
 
@@ -811,11 +905,84 @@ def real_convert(case, m):
     if via.get("twice"):
         for o in _convert_to(case, m, case["tgt"], case.get("move_right_by")):
             real_write(case, o)
+    if via.get("edit"):
+        # call - legitimate change - call again: the first conversion is made and written (compared by the plain cases),
+        # then every time of the SAME read object is moved through public operations
+        for o in _convert_to(case, m, case["tgt"], case.get("move_right_by")):
+            real_write(case, o)
+        _edit_source(case, m, via["edit"])
     return _convert_to(case, m, case["tgt"], case.get("move_right_by"))
 
 
-def _write_as(tgt, m, out_layout, via):
-    to_file = via.get("write") == "file"
+def _swap_pairs(case):
+    """per chart of the score: (highest used column, lowest used column) or None for a chart without objects"""
+    return [(max(o[0] for o in ch["objs"]), min(o[0] for o in ch["objs"])) if ch["objs"] else None for ch in case["score"]["charts"]]
+
+
+def _edit_source(case, m, edit):
+    """The legitimate change of via.edit on the read object, through the public list properties / the stack."""
+    charts = list(m.maps) if hasattr(m, "maps") else [m]
+    how = edit[-1]
+    if edit[0] == "shift":
+        for chart in charts:
+            if how == "stack":
+                st = chart.stack()
+                st.offset += edit[1]
+            else:
+                for lst in chart.objs.values():
+                    lst.offset += edit[1]
+        return
+    for chart, ab in zip(charts, _swap_pairs(case)):
+        if ab is None or ab[0] == ab[1]:
+            continue
+        a, b = ab
+        if how == "stack":
+            st = chart.stack()
+            st.column = st.column.replace({a: b, b: a})
+        else:
+            for lst in (chart.hits, chart.holds):
+                lst.column = lst.column.replace({a: b, b: a})
+
+
+def real_before(case):
+    """Another file of the same source format through the same three calls; what comes out is thrown away."""
+    other = _other_case(case)
+    try:
+        m = real_read(other, BUILD[other["src"]](other))
+        for o in _convert_to(other, m, other["tgt"], other.get("move_right_by")):
+            _write_as(other["tgt"], o, other.get("out_layout"), {})
+    except Exception:  # noqa  (that file's own conversion is its pair's business)
+        pass
+
+
+def _junk(tgt, how):
+    """What a path holds before write_file: another file, longer (lines of the target format, 300 KB) or shorter."""
+    if how == "shorter":
+        return b"#\r\n"
+    n = 300 * 1024
+    if tgt == "osu":
+        head, line = b"osu file format v14\n\n[HitObjects]\n", b"64,192,%d,1,0,0:0:0:0:\n"
+    elif tgt == "qua":
+        head, line = b"HitObjects:\n", b"- StartTime: %d\n  Lane: 1\n"
+    elif tgt == "sm":
+        head, line = b"#NOTES:\n dance-single:\n :\n Easy:\n 1:\n 0,0,0,0,0:\n", b"1000\n0100\n0010\n0001\n,  // %d\n"
+    else:
+        head, line = b"#TITLE junk\r\n", b"#%03d11:01010101\r\n"
+    out, i = [head], 0
+    size = len(head)
+    while size < n:
+        out.append(line % (i % 1000))
+        size += len(out[-1])
+        i += 1
+    return b"".join(out)
+
+
+def _write_as(tgt, m, out_layout, via, to_file=None, prefill=None):
+    """to_file / prefill (bytes the path holds already): given by the caller for the further writes of via.rewrite."""
+    if to_file is None:
+        to_file = via.get("write") == "file"
+        if to_file and via.get("over"):
+            prefill = _junk(tgt, via["over"])
     if tgt == "bms":
         kw = {}
         if not via.get("default_out"):
@@ -825,22 +992,25 @@ def _write_as(tgt, m, out_layout, via):
         if via.get("nsd"):
             kw["no_sample_default"] = via["nsd"].encode()
         if to_file:
-            return _through_file(lambda q: m.write_file(q, **kw), ".bms", binary=True)
+            return _through_file(lambda q: m.write_file(q, **kw), ".bms", binary=True, prefill=prefill)
         return m.write(**kw)
     if to_file:
-        return _through_file(m.write_file, {"osu": ".osu", "qua": ".qua", "sm": ".sm"}[tgt], binary=False)
+        return _through_file(m.write_file, {"osu": ".osu", "qua": ".qua", "sm": ".sm"}[tgt], binary=False, prefill=prefill)
     if tgt == "osu":
         return "\n".join(m.write())
     return m.write()
 
 
-def _through_file(write_file, suffix, binary):
+def _through_file(write_file, suffix, binary, prefill=None):
     import os
     import tempfile
 
     d = tempfile.mkdtemp(prefix="c09_")
     p = os.path.join(d, "out" + suffix)
     try:
+        if prefill is not None:
+            with open(p, "wb") as f:
+                f.write(prefill)
         write_file(p)
         with open(p, "rb") as f:
             b = f.read()
@@ -851,8 +1021,16 @@ def _through_file(write_file, suffix, binary):
         os.rmdir(d)
 
 
-def real_write(case, m):
-    return _write_as(case["tgt"], m, case.get("out_layout"), _via(case))
+def real_write(case, m, nth=0, previous=None):
+    """nth = 0: the write of the case.  nth >= 1: a further write of the same converted chart (via.rewrite): the other
+    entry point and the case's own alternate; a write_file then goes to a path that holds `previous` (the output before)."""
+    if nth == 0:
+        return _write_as(case["tgt"], m, case.get("out_layout"), _via(case))
+    to_file = (_via(case).get("write") == "file") == (nth % 2 == 0)
+    prev = None
+    if to_file and previous is not None:
+        prev = previous if isinstance(previous, bytes) else previous.encode("utf8")
+    return _write_as(case["tgt"], m, case.get("out_layout"), _via(case), to_file=to_file, prefill=prev)
 
 
 # ============================================================================= comparison (the statement's clauses)
@@ -1021,7 +1199,18 @@ def run_case(case):
     payload = BUILD[case["src"]](case)
     want = denote_source(case, payload)
     _selfcheck_source(case, want)
+    via = _via(case)
+    if via.get("edit"):  # the chart AS IT IS after the change
+        if via["edit"][0] == "shift":
+            d_ms = via["edit"][1]
+            want = [dict(objs=[(k, c, t + d_ms, e + d_ms) for k, c, t, e in w["objs"]], tempo=[(t + d_ms, v) for t, v in w["tempo"]]) for w in want]
+        else:
+            sw = [{ab[0]: ab[1], ab[1]: ab[0]} if ab else {} for ab in _swap_pairs(case)]
+            want = [dict(objs=[(k, x.get(c, c), t, e) for k, c, t, e in w["objs"]], tempo=w["tempo"]) for w, x in zip(want, sw)]
+    n_more = int(via.get("rewrite") or 0)
     with _quiet():
+        if via.get("before"):
+            real_before(case)
         try:
             m = real_read(case, payload)
         except Exception as ex:
@@ -1030,17 +1219,25 @@ def run_case(case):
             outs = real_convert(case, m)
         except Exception as ex:
             return _by_family(case, pair, [(f"{pair}.no_exception", _exc("convert", ex))])
-        texts = []
+        texts, later = [], []
         for i, o in enumerate(outs):
             try:
                 texts.append(real_write(case, o))
             except Exception as ex:
                 return _by_family(case, pair, [(f"{pair}.no_exception", _exc(f"write (chart {i})", ex))])
+            prev = texts[-1]
+            for k in range(1, n_more + 1):  # the same converted chart written again
+                try:
+                    prev = real_write(case, o, k, prev)
+                except Exception as ex:
+                    return _by_family(case, pair, [(f"{pair}.no_exception", _exc(f"write #{k + 1} of the same converted chart (chart {i})", ex))])
+                later.append((i, k, prev))
     fails = []
     if len(texts) != len(want):
         return [(f"{pair}.objects", f"the source file holds {len(want)} chart(s), the conversion gave {len(texts)} file(s)")]
-    for i, (text, w) in enumerate(zip(texts, want)):
-        tag = f"chart {i}: " if len(want) > 1 else ""
+    for i, k, text in [(i, 0, t) for i, t in enumerate(texts)] + later:
+        w = want[i]
+        tag = (f"chart {i}: " if len(want) > 1 else "") + (f"write #{k + 1} of the same converted chart: " if k else "")
         bad, got = denote_target(case["tgt"], text, case.get("out_layout"))
         if bad:
             fails.append((f"{pair}.valid", tag + "; ".join(bad)[:600]))
@@ -1112,6 +1309,10 @@ def _drive(rep, src, n_quick, n_thorough):
         "osu / Quaver timing points in shuffled file order (30%); Quaver files with every omissible key omitted and record keys shuffled (40%); osu <-> BMS key counts 1..10; move_right_by 1 or 2 (OsuToBMS / QuaToBMS, 30%), default / 0 / 2 (O2JToBMS); "
         "CALLS (40% another way of reading: str / list with line ends / through an instance / Quaver safe=False / BMS layout positional or defaulted / read_file with str or pathlib.Path, LF or CRLF; 20% convert through an instance; raise_bad_mode=False / True given where the converter has it (30%); 10% the same read object first converted to another game and written; 10% convert + write twice, second output compared; "
         "25% write_file instead of write; BMS target: no_sample_default given (25%), note_channel_config defaulted when it is BME). "
+        f"FILE-SYSTEM STATE / REPETITION / VALUE RANGE: half of the write_file calls go to a path that already holds another file (300 KB of target-format lines, or 3 bytes); 40% of the read_file calls use a path from which another file of the format was read before; "
+        "15% write the SAME converted chart 1-2 further times (write <-> write_file alternating, write_file onto the previous output), every output compared; 8% send another small file of the source format through read -> convert -> write first; "
+        "8% call - change - call again: convert + write, then the same read object changed through the list properties or the stack (osu / Quaver / .sm sources: every time moved by 250 / 1000 / -125 / 3 ms; every source: the objects of the highest and the lowest used column exchanged), then convert + write again, compared with the source's denotation changed in the same way; "
+        f"10% of the scores draw half of their tempo values from {list(BPM_EDGE)} (255 = the top of BMS channel 03); 15% of the OsuToBMS / QuaToBMS / O2JToBMS cases pass a NEGATIVE move_right_by (-1 / -2) on a file whose lowest columns were emptied. "
         "Kept away from (known limitations): ';' and '//' in metadata text (the .sm writer emits them unescaped: stray text after the tag / the tag's own ';' and the next tag commented out), zero-length holds and two tempo points at one time (a .sm / BMS file cannot say them), tempo changes off measure lines (.sm #BPMS beats have two decimals; reseating of changes < 0.001 measure apart), BMS lines out of time order, objects before the first tempo point, stops, measure-length changes, SM mines / rolls / lifts / fakes"
     )
     rep.rule = "a case is one source file + one target game + the way the three calls are made (real read -> real convert -> real write -> target oracle vs source oracle); non-trivial when the score has a tempo change and a hold; every source file is first parsed by its own oracle and compared with the score it was made from (self-check)"
